@@ -248,7 +248,14 @@ const c07Lib = "/** @param? a\n @param? b\n @param? k */\n{template .u}\n[{$a ?:
 
 // H_datarefs: CheckDataRefs accepts exactly the generated bundles that satisfy the rules; for an
 // accepted bundle, rendering with every declared param supplied looks up no unbound name.
-func H_datarefs(depth, budget int, declA, declB bool) {
+func H_datarefs(depth, budget int, declA, declB bool) { c07Run(depth, budget, declA, declB, 0) }
+
+// H_datarefsLate: the same bundle plus a further template that declares the param a without using
+// it, placed after (late=1) or before (late=2) the generated one: always invalid, whatever the
+// other templates do.
+func H_datarefsLate(depth, budget, late int) { c07Run(depth, budget, true, true, late) }
+
+func c07Run(depth, budget int, declA, declB bool, late int) {
 	g := &c07Gen{budget: budget}
 	prog := g.list(depth, 3)
 	doc := "/**"
@@ -263,7 +270,15 @@ func H_datarefs(depth, budget int, declA, declB bool) {
 	}
 	doc += " @param l\n @param m */\n"
 	body := c07Src(prog)
-	src := "{namespace n}\n" + doc + "{template .t}\n" + body + "{if $l}{$m.a}{/if}\n{/template}\n" + c07Lib
+	main := doc + "{template .t}\n" + body + "{if $l}{$m.a}{/if}\n{/template}\n"
+	const lateTpl = "/** @param a\n @param? b */\n{template .late}\nlate\n{/template}\n"
+	src := "{namespace n}\n" + main + c07Lib
+	switch late {
+	case 1:
+		src = "{namespace n}\n" + main + c07Lib + lateTpl
+	case 2:
+		src = "{namespace n}\n" + lateTpl + main + c07Lib
+	}
 	verifObserve("body", body)
 	chk := &c07Check{params: params, used: map[string]bool{"l": true, "m": true}, direct: map[string]bool{}, letNames: map[string]bool{}}
 	chk.push()
@@ -273,6 +288,9 @@ func H_datarefs(depth, budget int, declA, declB bool) {
 		if !chk.used[p] {
 			chk.rejected = true // rule: every declared param is used
 		}
+	}
+	if late != 0 {
+		chk.rejected = true // .late declares params it never uses
 	}
 	tofu, err := verifCompile(src)
 	if err != nil {
